@@ -404,7 +404,29 @@ def k5(chk, repo):
             chk.violation("K5", key, c.where, "disp = %s, expected disp_aug[:-6] (the solution without the Lagrange multipliers)" % d)
 
 
+def k6(chk, repo):
+    """the element frames are one smooth function of the nodes"""
+    from ..model import component_model
+    from .common import sig_txt
+
+    chk.rule("K6", "Transform builds the local element axes from the element direction and one fixed global reference axis: neither compute nor compute_partials selects between alternatives depending on the node positions (an if or np.where on input values would swap the roles of Iy and Iz for some elements and make the response discontinuous in the geometry)", min_decided=2)
+    c = repo.cls("openaerostruct/structures/transform.py", "Transform")
+    m = component_model(repo, c)
+    for mn in ("compute", "compute_partials"):
+        for r in m.runs.get(mn, []):
+            if r.final is None:
+                continue
+            key = "Transform.%s %s" % (mn, sig_txt(r.sigma))
+            sel = [e for e in r.events if e.kind in ("test", "select") and any(str(d_).startswith("in:") for d_ in (e.d.get("dep") or ()))]
+            if sel:
+                e = sel[0]
+                chk.violation("K6", key, "%s:%d" % (e.func.mod.rel, e.lineno), "the reference axis / frame is selected by a condition on the inputs (%s in %s)" % (" ".join((e.d.get("pred") or "").split())[:80], e.func.qual))
+            else:
+                chk.ok("K6", key, c.where, "no input-valued selection")
+
+
 def run(chk, repo, tier):
+    k6(chk, repo)
     k1(chk, repo)
     k2(chk, repo)
     k3(chk, repo)
